@@ -1413,3 +1413,10 @@ mod tests {
         assert!(!entity_mut.enable_full_text);
     }
 }
+
+/// verification hook: runs the pest grammar of this module from `rule` on `text`; returns the number of
+/// bytes of `text` covered by the produced pairs, or `None` when the grammar rejects
+#[cfg(feature = "verif")]
+pub fn verif_pest_parse(rule: Rule, text: &str) -> Option<usize> {
+    PestParser::parse(rule, text).ok().map(|pairs| pairs.as_str().len())
+}
